@@ -488,7 +488,7 @@ def run_fresh(ck, binpath, specs, nproc, timeout=900):
         rc, out, err = ck.run_bin(binpath, ["one"], input=payload, timeout=timeout)
         if rc != 0:
             return ("ERR", "rc=%d %s" % (rc, err[-1500:]))
-        lines = [l for l in out.splitlines() if l.strip()]
+        lines = [l for l in jlines(out) if l.strip()]
         if len(lines) != len(specs):
             return ("ERR", "expected %d dumps, got %d: %s" % (len(specs), len(lines), err[-800:]))
         dumps = []
@@ -672,7 +672,7 @@ def correspondence(ck, binpath, n_per_proc, nproc, extra_cases):
         if rc != 0:
             ck.tie_broken("harness c11 corr failed", err[-2000:])
             return
-        for l in out.splitlines():
+        for l in jlines(out):
             if l.strip():
                 c = json.loads(l)
                 if c["k"] == "bo" and not isinstance(c["out"], list):
